@@ -1,9 +1,82 @@
 import Tup.DrvUtil
-/-! Driver for group Misc (stub; the group's owner fills it in). -/
+import Tup.Model.CellSize
+import Tup.Spec.CellSize
+/-!
+  Driver for group Misc (C15 sizes, C17 configuration).
+
+  C15 requests (`_` is `None`/`'auto'`):
+    c15 opt  <fixed 0|1> <env: tRows tCols tXpix tYpix cellW cellH defW defH cfgMaxC cfgMaxR gsn gsd csn csd>
+             w h cols rows maxc maxr sn sd          -> `ok c r` | `err kind`
+    c15 max  <env…> maxc maxr                       -> `ok c r` | `err kind`
+    c15 cell <env…>                                 -> `w h`
+    c15 lim  argC cfgC termC argR cfgR termR        -> `limC limR`           (specification)
+    c15 spec Wn Wd Hn Hd cw ch cols rows limC limR en ed c r -> `ok` | `wf0` | `bounds,no_unused,…`
+-/
 namespace Tup.Drv.Misc
-open Tup
+open Tup Tup.CellSize
+
+def optInt (s : String) : Option (Option Int) := if s = "_" then some none else s.toInt?.map some
+def optNat (s : String) : Option (Option Nat) := if s = "_" then some none else s.toNat?.map some
+
+def parseEnv : List String → Option Env
+  | [tr, tc, tx, ty, cw, ch, dw, dh, mc, mr, gsn, gsd, csn, csd] => do
+      let tr ← tr.toNat?; let tc ← tc.toNat?; let tx ← tx.toNat?; let ty ← ty.toNat?
+      let cw ← optNat cw; let ch ← optNat ch
+      let dw ← dw.toNat?; let dh ← dh.toNat?
+      let mc ← optInt mc; let mr ← optInt mr
+      let gsn ← gsn.toNat?; let gsd ← gsd.toNat?; let csn ← csn.toNat?; let csd ← csd.toNat?
+      let cell := match cw, ch with | some a, some b => some (a, b) | _, _ => none
+      pure { tRows := tr, tCols := tc, tXpix := tx, tYpix := ty, cfgCell := cell, cfgDefaultCell := (dw, dh),
+             cfgMaxCols := mc, cfgMaxRows := mr, cfgScale := ⟨csn, csd⟩, cfgGlobalScale := ⟨gsn, gsd⟩ }
+  | _ => none
+
+def resStr : Except Err (Int × Int) → String
+  | .ok (c, r) => s!"ok {c} {r}"
+  | .error e => s!"err {e.str}"
+
+def handleC15 : List String → String
+  | "opt" :: fixed :: rest =>
+      match parseEnv (rest.take 14), rest.drop 14 with
+      | some e, [w, h, cols, rows, maxc, maxr, sn, sd] =>
+          match w.toNat?, h.toNat?, optInt cols, optInt rows, optInt maxc, optInt maxr, optNat sn, optNat sd with
+          | some w, some h, some cols, some rows, some maxc, some maxr, some sn, some sd =>
+              let scale := match sn, sd with | some a, some b => some (Frac.mk a b) | _, _ => none
+              resStr (getOptimalGen (fixed = "1") e w h cols rows maxc maxr scale)
+          | _, _, _, _, _, _, _, _ => "bad"
+      | _, _ => "bad"
+  | "max" :: rest =>
+      match parseEnv (rest.take 14), rest.drop 14 with
+      | some e, [maxc, maxr] =>
+          match optInt maxc, optInt maxr with
+          | some maxc, some maxr => resStr (getMaxColsAndRows e maxc maxr)
+          | _, _ => "bad"
+      | _, _ => "bad"
+  | "cell" :: rest =>
+      match parseEnv rest with
+      | some e => let (a, b) := getCellSize e; s!"{a} {b}"
+      | none => "bad"
+  | ["lim", argC, cfgC, termC, argR, cfgR, termR] =>
+      match optNat argC, optNat cfgC, termC.toNat?, optNat argR, optNat cfgR, termR.toNat? with
+      | some argC, some cfgC, some termC, some argR, some cfgR, some termR =>
+          s!"{Spec.CellSize.colLimit argC cfgC termC} {Spec.CellSize.rowLimit argR cfgR termR}"
+      | _, _, _, _, _, _ => "bad"
+  | ["spec", wn, wd, hn, hd, cw, ch, cols, rows, limC, limR, en, ed, c, r] =>
+      match wn.toNat?, wd.toNat?, hn.toNat?, hd.toNat?, cw.toNat?, ch.toNat?, optInt cols, optInt rows with
+      | some wn, some wd, some hn, some hd, some cw, some ch, some cols, some rows =>
+          match limC.toNat?, limR.toNat?, en.toNat?, ed.toNat?, c.toInt?, r.toInt? with
+          | some limC, some limR, some en, some ed, some c, some r =>
+              let q : Spec.CellSize.Req := { Wn := wn, Wd := wd, Hn := hn, Hd := hd, cw := cw, ch := ch,
+                                             cols? := cols, rows? := rows, limC := limC, limR := limR }
+              if !q.wf then "wf0"
+              else
+                let fs := Spec.CellSize.failures { en := en, ed := ed } q c r
+                if fs.isEmpty then "ok" else ",".intercalate fs
+          | _, _, _, _, _, _ => "bad"
+      | _, _, _, _, _, _, _, _ => "bad"
+  | _ => "bad"
 
 def handle : List String → String
+  | "c15" :: rest => handleC15 rest
   | _ => "bad"
 
 end Tup.Drv.Misc
